@@ -118,7 +118,10 @@ func c15Run(c *choice.Ctx, rep *report.R, cfg c15Cfg, addrs []netip.Addr, maxLen
 				last = x.at
 			}
 			tokens = math.Min(float64(burst), tokens+(now-last).Seconds()*limit)
-			if float64(cost) <= tokens-1e-6 && cost <= burst {
+			if len(admitted[sn]) == 0 && cost <= burst {
+				// nothing was ever admitted for this subnet: its bucket is full, whatever other subnets did
+				fail("fresh-subnet-refused", fmt.Sprintf("the first request ever of subnet %s (cost %d <= burst %d, from %s) was refused: traffic of another subnet was charged to it", sn, cost, burst, a))
+			} else if float64(cost) <= tokens-1e-6 && cost <= burst {
 				fail("refused-within-budget", fmt.Sprintf("subnet %s has %.3f tokens by its own traffic but a request of cost %d from %s was refused", sn, tokens, cost, a))
 			}
 		}
@@ -212,6 +215,14 @@ func TestVerifC15(t *testing.T) {
 		b[bit/8] ^= 0x80 >> (bit % 8)
 		maskAddrs = append(maskAddrs, netip.AddrFrom4(b))
 	}
+	// cross-family aliases: the v6 address whose leading octets are the octets of a v4 address (and the v4 address made of the leading
+	// octets of the v6 base): buckets are per (family, prefix), never per leading octets alone
+	for _, a4 := range [][4]byte{base4, {198, 51, 100, 77}} {
+		var b16 [16]byte
+		copy(b16[:], a4[:])
+		maskAddrs = append(maskAddrs, netip.AddrFrom16(b16))
+	}
+	maskAddrs = append(maskAddrs, netip.AddrFrom4([4]byte{0x20, 0x01, 0x0d, 0xb8}), netip.MustParseAddr("2001:db8::"))
 	base6 := netip.MustParseAddr("2001:db8:1::").As16()
 	maskAddrs = append(maskAddrs, netip.AddrFrom16(base6))
 	for _, bit := range []int{46, 47, 48, 49, 50, 52, 53, 63, 64, 127} {
@@ -220,7 +231,7 @@ func TestVerifC15(t *testing.T) {
 		maskAddrs = append(maskAddrs, netip.AddrFrom16(b))
 	}
 	rep.Rule = fmt.Sprintf("E3 (virtual clock, real gc ticker): (buckets) configs limit{1,20} x burst{omitted,1,5,200} with default masks x all arrival sequences of length <=%d over 3 addresses in 2 subnets x delay {0, 1/limit, 1s, 61s, 121s} x cost {1,3,15,burst}; "+
-		"(masks) v4_mask {omitted,16,21,24,25,27,32} x v6_mask {omitted,48,50,53,64} with limit=burst=1 x all ordered pairs over 26 addresses (a v4 base, its v4-mapped form and a v6 base, each with one bit flipped at positions around every mask boundary) at one instant; "+
+		"(masks) v4_mask {omitted,16,21,24,25,27,32} x v6_mask {omitted,48,50,53,64} with limit=burst=1 x all ordered pairs over 30 addresses (a v4 base, its v4-mapped form and a v6 base, each with one bit flipped at positions around every mask boundary, plus cross-family aliases: v6 addresses whose leading octets equal a v4 address and vice versa) at one instant; "+
 		"oracle: over every window the admitted cost per property-defined subnet <= burst + rate*window; a request within the budget left by its own subnet's traffic is never refused; "+
 		"(phases) configs (rate,burst) {(20,50),(20,default),(3,10),(7,10),(1,5),(0.5,3)}: spend the whole burst at T, stay silent for I, ask for the whole burst again (twice) for every T in 0..%ds and I in 0.25..%ds on a 0.25 s grid, i.e. at every phase of the periodic clean-up", maxLen, report.ParamInt("PHASE_T", 260)/4, report.ParamInt("PHASE_I", 40)/4)
 	if rp := report.ReplayFile(); rp != nil {
